@@ -706,12 +706,13 @@ func pickPatterns(body, v string) []string {
 	return out
 }
 
-// pickPatterns2: applications that contain both bound variables (and no other bound variable).
-func pickPatterns2(body, a, b string) []string {
-	var out []string
-	seen := map[string]bool{}
+// pickPatternsN: triggers for a quantifier over several variables: a single application containing all of them when there
+// is one, otherwise a multi-pattern made of one application per variable.
+func pickPatternsN(body string, vs []string) []string {
 	interpreted := map[string]bool{"and": true, "or": true, "not": true, "=>": true, "=": true, "<": true, "<=": true, ">": true, ">=": true,
 		"+": true, "-": true, "*": true, "ite": true, "div": true, "mod": true, "forall": true, "exists": true, "!": true, "store": true}
+	var apps []string
+	seen := map[string]bool{}
 	var walk func(s string)
 	walk = func(s string) {
 		for i := 0; i < len(s); i++ {
@@ -735,18 +736,29 @@ func pickPatterns2(body, a, b string) []string {
 			if k := strings.IndexAny(head, " )"); k >= 0 {
 				head = head[:k]
 			}
-			if !interpreted[head] && !strings.HasPrefix(head, "(") && containsSym(sub, a) && containsSym(sub, b) && !seen[sub] && !strings.Contains(sub, "forall") {
+			if !interpreted[head] && !strings.HasPrefix(head, "(") && !seen[sub] && !strings.Contains(sub, "forall") {
 				m := map[string]bool{}
 				symbols(sub, m)
-				ok := true
+				ok := false
+				for _, v := range vs {
+					if m[v] {
+						ok = true
+					}
+				}
 				for sy := range m {
-					if sy != a && sy != b && strings.Contains(sy, "!q") {
+					isOwn := false
+					for _, v := range vs {
+						if sy == v {
+							isOwn = true
+						}
+					}
+					if !isOwn && strings.Contains(sy, "!q") {
 						ok = false
 					}
 				}
 				if ok {
 					seen[sub] = true
-					out = append(out, sub)
+					apps = append(apps, sub)
 				}
 			}
 			if len(sub) > 2 {
@@ -756,21 +768,62 @@ func pickPatterns2(body, a, b string) []string {
 		}
 	}
 	walk(body)
-	// keep minimal ones, at most two
-	var mins []string
-	for _, c := range out {
-		minimal := true
-		for _, o := range out {
-			if o != c && strings.Contains(c, o) {
-				minimal = false
+	has := func(t, v string) bool { return containsSym(t, v) }
+	var all []string
+	for _, a := range apps {
+		ok := true
+		for _, v := range vs {
+			if !has(a, v) {
+				ok = false
 			}
 		}
-		if minimal && len(mins) < 2 {
-			mins = append(mins, c)
+		if ok {
+			all = append(all, a)
 		}
 	}
-	return mins
+	if len(all) > 0 {
+		// minimal ones, at most two alternatives
+		var mins []string
+		for _, c := range all {
+			minimal := true
+			for _, o := range all {
+				if o != c && strings.Contains(c, o) {
+					minimal = false
+				}
+			}
+			if minimal && len(mins) < 2 {
+				mins = append(mins, c)
+			}
+		}
+		return mins
+	}
+	// multi-pattern: smallest application per variable
+	var parts []string
+	covered := map[string]bool{}
+	for _, v := range vs {
+		if covered[v] {
+			continue
+		}
+		best := ""
+		for _, a := range apps {
+			if has(a, v) && (best == "" || len(a) < len(best)) {
+				best = a
+			}
+		}
+		if best == "" {
+			return nil
+		}
+		parts = append(parts, best)
+		for _, w := range vs {
+			if has(best, w) {
+				covered[w] = true
+			}
+		}
+	}
+	return []string{strings.Join(parts, " ")}
 }
+
+func pickPatterns2(body, a, b string) []string { return pickPatternsN(body, []string{a, b}) }
 
 func pickPattern(body, v string) string {
 	ps := pickPatterns(body, v)
@@ -933,34 +986,43 @@ func (e *Env) callExpr(n *ast.CallExpr) Val {
 		return BoolV(Eq(arg(0).S, arg(1).S))
 	case "forall", "exists":
 		return e.quant(fname, n)
-	case "forall2":
-		// forall2(a, b, body): one quantifier over two integers (better triggers than nesting)
-		if len(n.Args) != 3 {
-			panic(specErr("%s: forall2(a, b, body)", e.what))
+	case "forall2", "forall3":
+		// forallN(a, b[, c], body): one quantifier over several integers (better triggers than nesting)
+		nv := 2
+		if fname == "forall3" {
+			nv = 3
 		}
-		ia, ok1 := n.Args[0].(*ast.Ident)
-		ib, ok2 := n.Args[1].(*ast.Ident)
-		if !ok1 || !ok2 {
-			panic(specErr("%s: forall2 needs two identifiers", e.what))
+		if len(n.Args) != nv+1 {
+			panic(specErr("%s: %s needs %d variables and a body", e.what, fname, nv))
 		}
-		vc.n++
-		va := fmt.Sprintf("%s!q%d", ia.Name, vc.n)
-		vc.n++
-		vb := fmt.Sprintf("%s!q%d", ib.Name, vc.n)
-		inner := e.bind(ia.Name, IntV(va, nil)).bind(ib.Name, IntV(vb, nil))
-		body := inner.expr(n.Args[2])
+		inner := e
+		var vs []string
+		for k := 0; k < nv; k++ {
+			id, ok := n.Args[k].(*ast.Ident)
+			if !ok {
+				panic(specErr("%s: %s needs identifiers", e.what, fname))
+			}
+			vc.n++
+			v := fmt.Sprintf("%s!q%d", id.Name, vc.n)
+			vs = append(vs, v)
+			inner = inner.bind(id.Name, IntV(v, nil))
+		}
+		body := inner.expr(n.Args[nv])
 		if body.K != KBool {
 			panic(specErr("%s: quantifier body is not boolean", e.what))
 		}
-		// trigger: smallest application containing both variables
+		decl := ""
+		for _, v := range vs {
+			decl += "(" + v + " Int) "
+		}
 		pat := ""
-		for _, c := range pickPatterns2(body.S, va, vb) {
+		for _, c := range pickPatternsN(body.S, vs) {
 			pat += " :pattern (" + c + ")"
 		}
 		if pat != "" {
-			return BoolV(fmt.Sprintf("(forall ((%s Int) (%s Int)) (! %s%s))", va, vb, body.S, pat))
+			return BoolV(fmt.Sprintf("(forall (%s) (! %s%s))", strings.TrimSpace(decl), body.S, pat))
 		}
-		return BoolV(fmt.Sprintf("(forall ((%s Int) (%s Int)) %s)", va, vb, body.S))
+		return BoolV(fmt.Sprintf("(forall (%s) %s)", strings.TrimSpace(decl), body.S))
 	case "ite":
 		c, a, b := arg(0), arg(1), arg(2)
 		if a.K == KBool {
@@ -1071,10 +1133,30 @@ func (e *Env) callExpr(n *ast.CallExpr) Val {
 			panic(specErr("%s: sid() needs a byte slice", e.what))
 		}
 		h := vc.heapGet(e.st, byteHeap, arr2Sort("Int"))
-		t := "0"
-		for k := 15; k >= 0; k-- {
-			t = Add(Mul(t, "256"), Sel(Sel(h, v.Reg), Add(v.Off, numI(int64(k)))))
+		// identity = an injective function of the 16 bytes (injectivity through inverse functions)
+		var bs []string
+		sorts := make([]string, 16)
+		for k := 0; k < 16; k++ {
+			bs = append(bs, Sel(Sel(h, v.Reg), Add(v.Off, numI(int64(k)))))
+			sorts[k] = "Int"
 		}
+		vc.declareFun("sum16", sorts, "Int")
+		if !vc.axiomSet["sum16_inj"] {
+			vc.axiomSet["sum16_inj"] = true
+			vars := ""
+			args := ""
+			for k := 0; k < 16; k++ {
+				vars += fmt.Sprintf("(b%d Int) ", k)
+				args += fmt.Sprintf(" b%d", k)
+			}
+			var inv []string
+			for k := 0; k < 16; k++ {
+				vc.declareFun(fmt.Sprintf("sum16_inv%d", k), []string{"Int"}, "Int")
+				inv = append(inv, fmt.Sprintf("(= (sum16_inv%d (sum16%s)) b%d)", k, args, k))
+			}
+			vc.asserts = append(vc.asserts, fmt.Sprintf("(forall (%s) (! (and (> (sum16%s) 0) %s) :pattern ((sum16%s))))", strings.TrimSpace(vars), args, strings.Join(inv, " "), args))
+		}
+		t := app("sum16", bs...)
 		if !strings.Contains(t, "!q") {
 			t = vc.forceName("sid", "Int", t)
 		}
@@ -1085,6 +1167,16 @@ func (e *Env) callExpr(n *ast.CallExpr) Val {
 		vc.declareFun("hashid", []string{"(Array Int Int)", "Int", "Int"}, "Int")
 		vc.axiom("hashid_pos", "(forall ((a (Array Int Int)) (o Int) (n Int)) (! (> (hashid a o n) 0) :pattern ((hashid a o n))))")
 		return IntV(app("hashid", Sel(vc.heapGet(e.st, byteHeap, arr2Sort("Int")), v.Reg), v.Off, v.Len), nil)
+	case "closureLemma":
+		// instance of lemma L1 (checked in Lean, /verif/lemmas/L1.lean) for the concrete set S and commit c:
+		// if S contains c and is closed under parents, S contains every ancestor-or-self of c.
+		S, c := arg(0).S, arg(1).S
+		vc.declareFun("u_anc", []string{"Int", "Int"}, "Bool")
+		vc.declareFun("u_nparents", []string{"Int"}, "Int")
+		vc.declareFun("u_parentOf", []string{"Int", "Int"}, "Int")
+		closed := fmt.Sprintf("(forall ((y Int) (i Int)) (! (=> (and (select %s y) (<= 0 i) (< i (u_nparents y))) (select %s (u_parentOf y i))) :pattern ((select %s (u_parentOf y i)))))", S, S, S)
+		concl := fmt.Sprintf("(forall ((x Int)) (! (=> (u_anc x %s) (select %s x)) :pattern ((u_anc x %s))))", c, S, c)
+		return BoolV(Imp(And(Sel(S, c), closed), concl))
 	case "hasPrefix":
 		return BoolV(vc.hasPrefix(arg(0).S, arg(1).S))
 	case "domain":
@@ -1135,7 +1227,7 @@ func (e *Env) callExpr(n *ast.CallExpr) Val {
 		v := arg(0)
 		v.Str = true
 		return v
-	case "select":
+	case "sel":
 		return IntV(Sel(arg(0).S, arg(1).S), nil)
 	case "member":
 		return BoolV(Sel(arg(0).S, arg(1).S))
